@@ -34,6 +34,7 @@ def run(ctx):
     import C03
     sp = ir.load_units([os.path.join(ir.REPO, 'src', 'String.cpp')]) if not any(f.get('pq') == 'asl::String::trimmed' and f.get('body') for f in prog.functions) else prog
     C03.check_split_dic(ctx, sp, rule='C15.query')
+    check_join_empty(ctx, prog)
     return __doc__.split('\n\n', 1)[1]
 
 
@@ -1126,3 +1127,42 @@ def conj(c):
     if c.get('k') == 'bin' and c.get('op') == '&&':
         return conj(c['x']) + conj(c['y'])
     return [c]
+
+
+
+def check_join_empty(ctx, prog):
+    """C15.query (empty dictionary): `Url::params(d)` is `d.join('&', '=')`, and `parseQuery(params(d)) = d` includes the dictionary
+    without entries.  `Map::join(s1, s2)` is interpreted (scansim) for that case - its enumeration loops do not run (they are
+    skipped), `length()` is 0: the straight-line remainder must yield the empty string without a negative length or an access
+    outside a string (a separator trimmed off a text that has none)."""
+    import scansim
+    fs = [g for g in prog.functions if g.get('pq') == 'asl::Map::join' and g.get('body') and len(g['params']) == 2]
+    if not fs:
+        ctx.info['join_empty'] = 'no two-separator Map::join instantiated in the analysed units'
+        return
+    f = fs[0]
+    ctx.analysed(f)
+    role = 'join:empty dictionary gives the empty string'
+
+    def skip(st):
+        if st.get('k') not in ('for', 'while', 'do'):
+            return False
+        return any('numerator' in (w.get('fn') or w.get('cls') or w.get('pq') or '') or (w.get('k') == 'var' and w.get('n') == '_b_') for e in ir.stmt_exprs(st) for w in walk_expr(e))
+    bufs = {}
+    r = scansim.Run(prog, f, bufs, mems={}, methods={'length': lambda run, e, args: 0, '*': 'interp'}, objects=True, ignore=skip)
+    for p_, txt in zip(f['params'], ('&', '=')):
+        bufs[('O', p_['id'])] = [ord(c) for c in txt] + [0]
+        r.objlen[p_['id']] = len(txt)
+        r.strobjs.add(p_['id'])
+    try:
+        ret = r.run()
+    except scansim.OOB as o:
+        ctx.violation('C15.query', f['pq'], role, fwhere(f), 'for a dictionary without entries join() leaves its strings: %s - Url::params({}) crashes instead of returning ""' % o)
+        return
+    except (scansim.Unsupported, TypeError, KeyError, IndexError, ValueError) as u:
+        ctx.info['join_empty'] = 'outside the interpreted fragment: %s' % u
+        return
+    ctx.evaluations += 1
+    out = bufs.get(ret[1]) if isinstance(ret, tuple) and len(ret) > 1 else None
+    ctx.check(out is not None and out[:1] == [0], 'C15.query', f['pq'], role, fwhere(f), 'interpreted with the enumeration skipped: the result is ""',
+              'for a dictionary without entries join() returns %s instead of the empty string' % (out,))
